@@ -1,9 +1,374 @@
-//! C09 session-level half (mock cluster): frames a Session emits carry the statement's settings.
+//! C09 session-level half (mock cluster): the frames a Session emits carry exactly the settings the
+//! caller put on the statement / execution profile / session (and, with a timestamp generator on the
+//! session, C18's wire clause: explicit timestamps unchanged, generated ones strictly increasing).
 use super::Ctx;
-use crate::runner::Report;
+use crate::e2e::*;
+use crate::mock::*;
+use crate::runner::*;
+use crate::wire::prim::WValue;
+use crate::wire::request::*;
+use crate::wire::response::*;
+use crate::wire::value::*;
+use crate::{vassert, vassert_eq};
+use proptest::prelude::*;
+use scylla::client::Compression;
+use scylla::client::execution_profile::ExecutionProfile;
+use scylla::policies::timestamp_generator::MonotonicTimestampGenerator;
+use scylla::response::PagingState;
+use scylla::statement::batch::{Batch, BatchType};
+use scylla::statement::unprepared::Statement;
+use scylla::statement::{Consistency, SerialConsistency};
+use serde::{Deserialize, Serialize};
 use serde_json::Value;
+use std::cell::RefCell;
+use std::collections::HashMap;
+use std::sync::{Arc, Mutex};
+use std::time::Duration;
 
-pub fn run(_ctx: &Ctx, _rep: &mut Report) {}
-pub fn replay(_rep: &mut Report, _check: &str, _case: &Value) -> bool {
-    false
+#[derive(Debug, Clone, Copy, PartialEq, Eq, Serialize, Deserialize)]
+pub enum Api {
+    QueryUnpaged,
+    QuerySinglePage,
+    QueryIter,
+    ExecUnpaged,
+    ExecSinglePage,
+    ExecIter,
+    Batch,
+}
+
+#[derive(Debug, Clone, Serialize, Deserialize)]
+pub struct Case {
+    pub api: Api,
+    /// 0 none, 1 lz4, 2 snappy (with session timestamp generator), 3 none with generator
+    pub env: u8,
+    pub profile_cl: u8,
+    pub profile_serial: Option<bool>,
+    pub stmt_cl: Option<u8>,
+    /// None = inherit from the profile
+    pub stmt_serial: Option<Option<bool>>,
+    pub page_size: Option<i32>,
+    pub paging_state: Option<Vec<u8>>,
+    pub timestamp: Option<i64>,
+    pub tracing: bool,
+    pub with_values: bool,
+    pub a: i32,
+    pub b: String,
+    /// (Batch) per statement: prepared?, with values?
+    pub batch: Vec<(bool, bool)>,
+    pub batch_type: u8,
+}
+
+const CLS: [Consistency; 9] = [
+    Consistency::Any,
+    Consistency::One,
+    Consistency::Two,
+    Consistency::Three,
+    Consistency::Quorum,
+    Consistency::All,
+    Consistency::LocalQuorum,
+    Consistency::EachQuorum,
+    Consistency::LocalOne,
+];
+const CL_CODES: [u16; 9] = [0, 1, 2, 3, 4, 5, 6, 7, 10];
+fn serial(b: bool) -> SerialConsistency {
+    if b { SerialConsistency::LocalSerial } else { SerialConsistency::Serial }
+}
+fn serial_code(b: bool) -> u16 {
+    if b { 9 } else { 8 }
+}
+
+const D: Duration = Duration::from_secs(20);
+
+struct Rec {
+    frames: Mutex<Vec<(ReqFrame, u64)>>,
+}
+
+impl Script for Rec {
+    fn on_prepare(&self, _ctx: &ReqCtx, text: &str) -> Action {
+        let with_values = text.contains('?');
+        let cols = if with_values {
+            vec![
+                ColSpec { ks: "ks".into(), table: "t".into(), name: "a".into(), typ: WType::Std(MType::Native(Nat::Int)) },
+                ColSpec { ks: "ks".into(), table: "t".into(), name: "b".into(), typ: WType::Std(MType::Native(Nat::Text)) },
+            ]
+        } else {
+            vec![]
+        };
+        Action::Reply(RespBody::Result(ResultBody::Prepared {
+            id: statement_id(text),
+            result_metadata_id: None,
+            prepared: PreparedMeta { global_spec: true, pk_indexes: vec![], cols },
+            result: ResultMeta { global_spec: true, col_count: 1, cols: vec![ColSpec { ks: "ks".into(), table: "t".into(), name: "a".into(), typ: WType::Std(MType::Native(Nat::Int)) }], ..Default::default() },
+        }))
+    }
+    fn on_statement(&self, ctx: &ReqCtx, frame: &ReqFrame, _params: &QParams, _is_execute: bool) -> Action {
+        self.frames.lock().unwrap().push((frame.clone(), ctx.seq));
+        Action::Reply(simple_rows(&[("a".to_string(), MType::Native(Nat::Int))], &[vec![MVal::Int(1)]]))
+    }
+    fn on_batch(&self, ctx: &ReqCtx, frame: &ReqFrame) -> Action {
+        self.frames.lock().unwrap().push((frame.clone(), ctx.seq));
+        Action::Default
+    }
+}
+
+thread_local! {
+    static ENVS: RefCell<HashMap<u8, Env>> = RefCell::new(HashMap::new());
+    /// last generated timestamp seen per environment (this thread issues requests one at a time)
+    static LAST_TS: RefCell<HashMap<u8, i64>> = RefCell::new(HashMap::new());
+}
+
+fn has_generator(env: u8) -> bool {
+    env % 4 >= 2
+}
+
+pub fn oracle(c: &Case) -> Verdict {
+    let key = c.env % 4;
+    ENVS.with(|cell| {
+        let mut map = cell.borrow_mut();
+        if !map.contains_key(&key) {
+            let spec = EnvSpec {
+                nodes: simple_nodes(2, None, false),
+                configure: Box::new(move |b| {
+                    let b = b.compression(match key {
+                        1 => Some(Compression::Lz4),
+                        2 => Some(Compression::Snappy),
+                        _ => None,
+                    });
+                    if has_generator(key) { b.timestamp_generator(Arc::new(MonotonicTimestampGenerator::new())) } else { b }
+                }),
+                ..Default::default()
+            };
+            let env = build_env(&spec, hash_of(&format!("{:?}{key}", std::thread::current().id()))).map_err(|m| bad("harness_env", m))?;
+            map.insert(key, env);
+        }
+        let r = run_case(map.get(&key).unwrap(), c, key);
+        if matches!(&r, Err((s, _)) if s.starts_with("harness")) {
+            map.remove(&key);
+        }
+        r
+    })
+}
+
+fn run_case(env: &Env, c: &Case, key: u8) -> Verdict {
+    let marker = new_marker();
+    let rec = Arc::new(Rec { frames: Mutex::new(vec![]) });
+    env.registry.register(&marker, rec.clone());
+    let session = Arc::clone(&env.session);
+    let profile = ExecutionProfile::builder().consistency(CLS[c.profile_cl as usize % 9]).serial_consistency(c.profile_serial.map(serial)).build().into_handle();
+    let text = if c.with_values { format!("INSERT INTO ks.t (a, b) VALUES (?, ?) {marker}") } else { format!("SELECT a FROM ks.t {marker}") };
+    let paging = match &c.paging_state {
+        Some(b) => PagingState::new_from_raw_bytes(b.clone()),
+        None => PagingState::start(),
+    };
+    let outcome = env.rt.block_on(async {
+        let fut = async {
+            macro_rules! configure {
+                ($s:ident) => {{
+                    $s.set_execution_profile_handle(Some(profile.clone()));
+                    if let Some(cl) = c.stmt_cl {
+                        $s.set_consistency(CLS[cl as usize % 9]);
+                    }
+                    if let Some(sc) = c.stmt_serial {
+                        $s.set_serial_consistency(sc.map(serial));
+                    }
+                    $s.set_timestamp(c.timestamp);
+                    $s.set_tracing(c.tracing);
+                }};
+            }
+            macro_rules! go {
+                ($call:expr) => {
+                    $call.await.map(|_| ()).map_err(|e| e.to_string())
+                };
+            }
+            match c.api {
+                Api::QueryUnpaged | Api::QuerySinglePage | Api::QueryIter => {
+                    let mut s = Statement::new(text.clone());
+                    configure!(s);
+                    if let Some(p) = c.page_size {
+                        s.set_page_size(p);
+                    }
+                    match (c.api, c.with_values) {
+                        (Api::QueryUnpaged, true) => go!(session.query_unpaged(s, (c.a, c.b.as_str()))),
+                        (Api::QueryUnpaged, false) => go!(session.query_unpaged(s, ())),
+                        (Api::QuerySinglePage, true) => go!(session.query_single_page(s, (c.a, c.b.as_str()), paging.clone())),
+                        (Api::QuerySinglePage, false) => go!(session.query_single_page(s, (), paging.clone())),
+                        (_, true) => go!(session.query_iter(s, (c.a, c.b.as_str()))),
+                        (_, false) => go!(session.query_iter(s, ())),
+                    }
+                }
+                Api::ExecUnpaged | Api::ExecSinglePage | Api::ExecIter => {
+                    let mut s = session.prepare(text.clone()).await.map_err(|e| format!("PREPARE:{e}"))?;
+                    configure!(s);
+                    if let Some(p) = c.page_size {
+                        s.set_page_size(p);
+                    }
+                    match (c.api, c.with_values) {
+                        (Api::ExecUnpaged, true) => go!(session.execute_unpaged(&s, (c.a, c.b.as_str()))),
+                        (Api::ExecUnpaged, false) => go!(session.execute_unpaged(&s, ())),
+                        (Api::ExecSinglePage, true) => go!(session.execute_single_page(&s, (c.a, c.b.as_str()), paging.clone())),
+                        (Api::ExecSinglePage, false) => go!(session.execute_single_page(&s, (), paging.clone())),
+                        (_, true) => go!(session.execute_iter(s, (c.a, c.b.as_str()))),
+                        (_, false) => go!(session.execute_iter(s, ())),
+                    }
+                }
+                Api::Batch => {
+                    let mut b = Batch::new(match c.batch_type % 3 {
+                        0 => BatchType::Logged,
+                        1 => BatchType::Unlogged,
+                        _ => BatchType::Counter,
+                    });
+                    configure!(b);
+                    let mut vals: Vec<Option<(i32, String)>> = vec![];
+                    for (k, (prepared, with_values)) in c.batch.iter().enumerate() {
+                        let t = if *with_values { format!("INSERT INTO ks.t (a, b) VALUES (?, ?) {marker} /*{k}*/") } else { format!("INSERT INTO ks.t (a) VALUES (0) {marker} /*{k}*/") };
+                        if *prepared {
+                            b.append_statement(session.prepare(t).await.map_err(|e| format!("PREPARE:{e}"))?);
+                        } else {
+                            b.append_statement(Statement::new(t));
+                        }
+                        vals.push(if *with_values { Some((c.a.wrapping_add(k as i32), format!("{}{k}", c.b))) } else { None });
+                    }
+                    // one row type for every statement: Option<(..)> is not a row, so use vectors of CQL values
+                    let rows: Vec<Vec<scylla::value::CqlValue>> = vals.iter().map(|v| match v {
+                        Some((a, s)) => vec![scylla::value::CqlValue::Int(*a), scylla::value::CqlValue::Text(s.clone())],
+                        None => vec![],
+                    }).collect();
+                    go!(session.batch(&b, rows))
+                }
+            }
+        };
+        tokio::time::timeout(D, fut).await.map_err(|_| format!("request did not complete within {D:?}"))
+    });
+    env.registry.unregister(&marker);
+    let result = outcome.map_err(|e| bad("harness_e2e", e))?;
+    if let Err(e) = &result {
+        return Err(bad(if e.starts_with("PREPARE:") { "harness_e2e" } else { "request_failed" }, format!("{:?} failed against a mock that answers everything: {e}", c.api)));
+    }
+    let frames = rec.frames.lock().unwrap().clone();
+    vassert_eq!(frames.len(), 1, "frame_count", "{:?}: frames produced by one call", c.api);
+    let (f, _) = &frames[0];
+    let want_cl = CL_CODES[c.stmt_cl.unwrap_or(c.profile_cl) as usize % 9];
+    let want_serial = c.stmt_serial.unwrap_or(c.profile_serial).map(serial_code);
+    vassert_eq!(f.flags & 0x02 != 0, c.tracing, "tracing_flag", "{:?}: tracing flag in the frame header", c.api);
+    vassert_eq!(f.flags & 0x01 != 0, key == 1 || key == 2, "compression_flag", "{:?}: compression flag with session compression {key}", c.api);
+    let generated = has_generator(key);
+    let check_ts = |ts: Option<i64>| -> Result<(), (String, String)> {
+        match (c.timestamp, generated) {
+            (Some(t), _) => vassert_eq!(ts, Some(t), "explicit_timestamp_changed", "{:?}: the statement carries timestamp {t}", c.api),
+            (None, false) => vassert_eq!(ts, None, "timestamp_invented", "{:?}: no timestamp asked for, no generator configured", c.api),
+            (None, true) => {
+                let Some(t) = ts else { return Err(bad("generated_timestamp_missing", format!("{:?}: the session has a timestamp generator but the frame carries none", c.api))) };
+                let prev = LAST_TS.with(|m| m.borrow_mut().insert(key, t));
+                if let Some(p) = prev {
+                    vassert!(t > p, "generated_timestamp_not_increasing", "{:?}: generated timestamp {t} after {p} on the same session", c.api);
+                }
+            }
+        }
+        Ok(())
+    };
+    let enc = |a: i32, b: &str| vec![WValue::Bytes(a.to_be_bytes().to_vec()), WValue::Bytes(b.as_bytes().to_vec())];
+    match (&f.body, c.api) {
+        // an unprepared statement with values is prepared by the driver first (to learn the types) and then executed
+        (ReqBody::Query { params, .. } | ReqBody::Execute { params, .. }, api) if api != Api::Batch =>
+        {
+            let query_api = matches!(api, Api::QueryUnpaged | Api::QuerySinglePage | Api::QueryIter);
+            let expect_execute = !query_api || c.with_values;
+            vassert_eq!(matches!(f.body, ReqBody::Execute { .. }), expect_execute, "request_kind", "{api:?} with_values={}", c.with_values);
+            vassert_eq!(params.consistency, want_cl, "consistency", "{:?}: statement {:?} profile {}", c.api, c.stmt_cl, c.profile_cl);
+            vassert_eq!(params.serial, want_serial, "serial_consistency", "{:?}: statement {:?} profile {:?}", c.api, c.stmt_serial, c.profile_serial);
+            let paged = !matches!(c.api, Api::QueryUnpaged | Api::ExecUnpaged);
+            vassert_eq!(params.page_size, if paged { Some(c.page_size.unwrap_or(5000)) } else { None }, "page_size", "{:?}: statement page size {:?}", c.api, c.page_size);
+            let want_ps = if matches!(c.api, Api::QuerySinglePage | Api::ExecSinglePage) { c.paging_state.clone() } else { None };
+            vassert_eq!(params.paging_state, want_ps, "paging_state", "{:?}", c.api);
+            vassert_eq!(params.values, if c.with_values { enc(c.a, &c.b) } else { vec![] }, "values", "{:?}", c.api);
+            check_ts(params.timestamp)?;
+        }
+        (ReqBody::Batch { batch_type, statements, consistency, serial: ser, timestamp, .. }, Api::Batch) => {
+            vassert_eq!(*batch_type, c.batch_type % 3, "batch_type", "batch");
+            vassert_eq!(*consistency, want_cl, "consistency", "batch: statement {:?} profile {}", c.stmt_cl, c.profile_cl);
+            vassert_eq!(*ser, want_serial, "serial_consistency", "batch: statement {:?} profile {:?}", c.stmt_serial, c.profile_serial);
+            vassert_eq!(statements.len(), c.batch.len(), "batch_statement_count", "batch");
+            for (k, ((st, vals), (prepared, with_values))) in statements.iter().zip(&c.batch).enumerate() {
+                // an unprepared statement with values is prepared by the driver to learn the types
+                if !*with_values {
+                    vassert_eq!(matches!(st, BStmt::Prepared(_)), *prepared, "batch_statement_kind", "statement {k}");
+                }
+                vassert_eq!(vals.clone(), if *with_values { enc(c.a.wrapping_add(k as i32), &format!("{}{k}", c.b)) } else { vec![] }, "values", "batch statement {k}");
+            }
+            check_ts(*timestamp)?;
+        }
+        (other, api) => return Err(bad("request_kind", format!("{api:?} produced {other:?}"))),
+    }
+    let n_set = c.stmt_cl.is_some() as u8 + c.stmt_serial.is_some() as u8 + c.page_size.is_some() as u8 + c.paging_state.is_some() as u8 + c.timestamp.is_some() as u8 + c.tracing as u8;
+    Ok(CaseInfo::new(n_set >= 2 || generated)
+        .class(format!("{:?}", c.api))
+        .class(format!("env{key}"))
+        .class_if(c.stmt_cl.is_none(), "consistency_from_profile")
+        .class_if(c.stmt_serial.is_none() && c.profile_serial.is_some(), "serial_from_profile")
+        .class_if(c.stmt_serial == Some(None) && c.profile_serial.is_some(), "serial_cleared_on_statement")
+        .class_if(generated && c.timestamp.is_none(), "generated_timestamp")
+        .class_if(generated && c.timestamp.is_some(), "explicit_timestamp_with_generator"))
+}
+
+pub fn case_with(envs: &'static [u8]) -> BoxedStrategy<Case> {
+    (
+        (
+            prop_oneof![
+                Just(Api::QueryUnpaged), Just(Api::QuerySinglePage), Just(Api::QueryIter), Just(Api::ExecUnpaged), Just(Api::ExecSinglePage), Just(Api::ExecIter), Just(Api::Batch)
+            ],
+            proptest::sample::select(envs),
+            0u8..9,
+            proptest::option::of(any::<bool>()),
+            proptest::option::of(0u8..9),
+            proptest::option::of(proptest::option::of(any::<bool>())),
+        ),
+        (
+            proptest::option::of(prop_oneof![Just(1i32), Just(2), Just(100), Just(5000), Just(i32::MAX), 1i32..100_000]),
+            proptest::option::of(proptest::collection::vec(any::<u8>(), 0..40)),
+            proptest::option::of(prop_oneof![Just(0i64), Just(-1), Just(i64::MAX), Just(i64::MIN + 1), any::<i64>()]),
+            any::<bool>(),
+            any::<bool>(),
+            any::<i32>(),
+            "[a-zé]{0,12}",
+            proptest::collection::vec((any::<bool>(), any::<bool>()), 1..5),
+            0u8..3,
+        ),
+    )
+        .prop_map(|((api, env, profile_cl, profile_serial, stmt_cl, stmt_serial), (page_size, paging_state, timestamp, tracing, with_values, a, b, batch, batch_type))| Case {
+            api,
+            env,
+            profile_cl,
+            profile_serial,
+            stmt_cl,
+            stmt_serial,
+            page_size,
+            paging_state,
+            timestamp,
+            tracing,
+            with_values,
+            a,
+            b,
+            batch,
+            batch_type,
+        })
+        .boxed()
+}
+
+pub fn run(ctx: &Ctx, rep: &mut Report) {
+    rep.notes.push("session: one call of each Session API (query/execute x unpaged/single_page/iter, batch) against a 2-node mock under {no, LZ4, Snappy} compression, with/without a session timestamp generator; settings on execution profile and statement (consistency, serial consistency incl. cleared, page size, paging state, timestamp, tracing, values); the single frame received must carry exactly those".into());
+    run_prop_par(rep, "session", ctx.tier.pick(6_000, 400_000), ncpu(), || case_with(&[0, 1, 2, 3]), oracle);
+}
+
+/// C18's wire clause: only environments with a timestamp generator.
+pub fn run_timestamps(ctx: &Ctx, rep: &mut Report) {
+    rep.notes.push("wire: Session calls on a session with MonotonicTimestampGenerator: a statement's explicit timestamp is sent unchanged, every other request carries a generated one, strictly increasing along the calls of one thread (sub-check shared with C09's session half)".into());
+    run_prop_par(rep, "wire", ctx.tier.pick(3_000, 200_000), ncpu(), || case_with(&[2, 3]), oracle);
+}
+
+pub fn replay(rep: &mut Report, check: &str, case: &Value) -> bool {
+    if check != "session" && check != "wire" {
+        return false;
+    }
+    replay_case::<Case, _>(rep, check, case, oracle);
+    true
 }
